@@ -416,6 +416,7 @@ func (i *interpreter) startPath(w workItem) {
 	i.pathReach = map[string]int{}
 	i.builders = nil
 	i.panicStack = nil
+	i.tainted = false
 }
 
 func (i *interpreter) choiceMap() map[string]int {
@@ -632,7 +633,7 @@ func Explore(cfg *Config) *Result {
 						res.Events = append(res.Events, ev)
 					}
 				}
-				if (end == "ok" || end == "panic") && len(i.events) == 0 && len(i.inputs) > 0 && (len(res.Samples) < cfg.MaxSamples) && (q.paths%cfg.SampleEvery == 1 || cfg.SampleEvery == 1) {
+				if (end == "ok" || end == "panic") && len(i.events) == 0 && len(i.inputs) > 0 && !i.tainted && (len(res.Samples) < cfg.MaxSamples) && (q.paths%cfg.SampleEvery == 1 || cfg.SampleEvery == 1) {
 					mm := i.modelMap(i.model)
 					pr := map[string]int{}
 					for k, v := range i.pathReach {
